@@ -1326,6 +1326,16 @@ func rC17Sections(w *World, r *Report) {
 			return
 		}
 		els, spreads, _ := elementsOf(c.Call.Args[1], map[ssa.Value]bool{})
+		// a list collected by appends of its own (an inlined helper's result appended whole): its elements are
+		// judged where they are appended to that list, each of those appends being visited here as well
+		switch a1 := c.Call.Args[1].(type) {
+		case *ssa.Phi:
+			els = nil
+		case *ssa.Call:
+			if calleeName(a1) == "builtin:append" {
+				els = nil
+			}
+		}
 		for _, sp := range spreads {
 			if call, ok := sp.(*ssa.Call); ok {
 				cn := calleeName(call)
